@@ -62,6 +62,20 @@ Clause(o, f, v, m, r2, a2, m1, m2) ==
        ELSE IF ~SameT(t2, tw, m) THEN "reader-attrs:tstates"
        ELSE "ok"
 
+\* an over-long bank-prefixed move (SnapOps!MoveOver): only the frame condition is specified
+IsOver(ops) == Len(ops) = 1 /\ ops[1].k = "moveover"
+ApplyDiff(mm, diff) == FoldLeft(LAMBDA acc, d : Put(acc, d[1], d[2]), mm, diff)
+ClauseOver(o, f, v, m, r2, a2, m1, op) ==
+  IF o.err # "" THEN "exception"
+  ELSE LET dr == FirstDiff(o.ind, r2, RegFields(f))
+           da == FirstDiff(o.ind, a2, AttrFields(f, v, m)) IN
+       IF dr # "" THEN "regs:" \o dr
+       ELSE IF da # "" THEN "attrs:" \o da
+       ELSE IF o.toomany = 1 THEN "mem:too-many-changes"
+       ELSE IF ~MoveOverRel(m1, ApplyDiff(m1, o.diff), op.dpage, op.n, op.dst) THEN "mem:unnamed-cell-changed"
+       ELSE IF o.same # 1 THEN "mem:reader-differs"
+       ELSE "ok"
+
 TraceInit ==
   /\ tid \in 1..Len(Traces)
   /\ l = 1 /\ verdict = "pending"
@@ -72,7 +86,13 @@ TraceStep ==
   /\ verdict = "pending"
   /\ l <= Len(Traces[tid].steps)
   /\ LET ops == Traces[tid].steps[l].ops IN
-       IF \A k \in 1..Len(ops) : OpOK(machine, ops[k])
+       IF IsOver(ops)
+       THEN LET o == ops[1]
+                nm == ApplyDiff(mem, Traces[tid].steps[l].obs.diff) IN
+            IF MoveOverOK(machine, o.page, o.a, o.n, o.dpage, o.dst) /\ MoveOverRel(mem, nm, o.dpage, o.n, o.dst)
+            THEN MoveOver(o.page, o.a, o.n, o.dpage, o.dst, nm)
+            ELSE UNCHANGED vars                 \* the observation is not a MoveOver step: verdict below
+       ELSE IF \A k \in 1..Len(ops) : OpOK(machine, ops[k])
        THEN IF Len(ops) = 1
             THEN LET o == ops[1] IN
                  \/ o.k = "reg" /\ Reg(o.name, o.v)
@@ -85,7 +105,10 @@ TraceStep ==
   /\ l' = l + 1
   /\ UNCHANGED tid
   /\ verdict' = LET ops == Traces[tid].steps[l].ops
-                    c == IF \E k \in 1..Len(ops) : ~OpOK(machine, ops[k]) THEN "machinery"
+                    c == IF IsOver(ops)
+                         THEN (IF ~MoveOverOK(machine, ops[1].page, ops[1].a, ops[1].n, ops[1].dpage, ops[1].dst) THEN "machinery"
+                               ELSE ClauseOver(Traces[tid].steps[l].obs, fmt, ver, machine, regs, attrs, mem, ops[1]))
+                         ELSE IF \E k \in 1..Len(ops) : ~OpOK(machine, ops[k]) THEN "machinery"
                          ELSE Clause(Traces[tid].steps[l].obs, fmt, ver, machine, regs', attrs', mem, mem') IN
                 IF c # "ok" THEN c ELSE IF l = Len(Traces[tid].steps) THEN "ok" ELSE "pending"
   /\ (verdict' \in {"ok", "pending"} \/ PrintT(<<"FAIL", (tid * 1000) + l, verdict'>>))
